@@ -144,7 +144,11 @@ bool ops_diff(World &w, const Op &o) {
       int pr = hwloc_topology_diff_apply(C, chain, 0);
       r.ev("diff poisoned entry %u/%u kind %d -> %d", N, len, pk, pr); r.count("probe.diff_poisoned_apply");
       if (pr != -(int)N) viol0(w, own, "diff.rollback.return", "entry %u of %u cannot be applied but diff_apply returned %d instead of %d", N, len, pr, -(int)N);
-      if (diffdump(C) != before) viol0(w, own, "diff.rollback.state", "diff_apply failed at entry %u of %u (returned %d) and left the topology modified", N, len, pr);
+      { std::string after = diffdump(C); if (after != before) { size_t pa = 0, pb = 0; std::string la, lb; while (pa < before.size() || pb < after.size()) { size_t ea = before.find('\n', pa), eb = after.find('\n', pb); if (ea == std::string::npos) ea = before.size(); if (eb == std::string::npos) eb = after.size(); la = before.substr(pa, ea - pa); lb = after.substr(pb, eb - pb); if (la != lb) break; pa = ea + 1; pb = eb + 1; }
+          // known finding (same defect as diff.apply.duplicate_info_pair): the differing object carries two infos with the same name, which an entry cannot tell apart once their values coincide
+          { bool dupname = false; for (hwloc_obj_t x : all_objs(C)) for (unsigned q = 0; q < x->infos.count; q++) for (unsigned q2 = q + 1; q2 < x->infos.count; q2++) if (!strcmp(x->infos.array[q].name, x->infos.array[q2].name) && la.find("{" + std::string(x->infos.array[q].name) + "=") != std::string::npos) dupname = true;
+            if (dupname && la.substr(0, la.find('{')) == lb.substr(0, lb.find('{'))) viol0(w, own, "diff.rollback.state.duplicate_info_name", "diff_apply failed at entry %u of %u (returned %d); an object with two infos of the same name was not restored: '%s' became '%s'", N, len, pr, la.substr(0, 300).c_str(), lb.substr(0, 300).c_str()); }
+          viol0(w, own, "diff.rollback.state", "diff_apply failed at entry %u of %u (returned %d) and left the topology modified: '%s' became '%s'", N, len, pr, la.substr(0, 500).c_str(), lb.substr(0, 500).c_str()); } }
     }
   }
   return true;
